@@ -58,6 +58,16 @@ def poly_expr(rng, xs, us):
     e = terms[0]
     for t in terms[1:]:
         e = ["+", e, t] if rng.random() < 0.7 else ["-", e, t]
+    r = rng.random()
+    if r < 0.2:
+        e = ["-", E.rand_const(rng), e]          # constant on the left of the minus
+        kinds.append("cminus")
+    elif r < 0.3 and us:
+        e = ["-", ["inert", rng.choice(us)], e]   # state-independent operand on the left of the minus
+        kinds.append("iminus")
+    elif r < 0.4:
+        e = ["+", E.rand_const(rng), e]
+        kinds.append("cplus")
     return e, "+".join(sorted(set(kinds)))
 
 
